@@ -131,6 +131,10 @@ CmdResult Exec::cmd(const CmdSpec& spec, bool run_monitors)
 	out.decisions += r.info.decisions;
 	if (r.info.decisions) out.interleavings.insert(r.info.decision_hash);
 	out.digest = mix64(out.digest, trace_hash(r));
+	if (getenv("SNAPSIM_CMDDIGEST")) {
+		out.cmd_digests.push_back(trace_hash(r));
+		out.cmd_lines.push_back(r.argv_line + strf(" => exit %d sig %d | ", r.exit_code, r.term_sig) + r.err + " |OUT| " + r.out + " |LOG| " + r.log + " |TRACE| " + trace_digest_text(r, 4000));
+	}
 	if (run_monitors && monitors) after_command(spec, r);
 	// concurrent changes made inside the command created new file versions
 	bool conc = false;
@@ -236,7 +240,7 @@ static void op_create_h(Exec& x, const Json& op, int)
 	int64_t s, ns;
 	x.sb.next_stamp(s, ns, op.num("zns") != 0);
 	uint64_t vino = 0;
-	if (op.has("reuse_vino")) vino = (uint64_t)x.vars["last_deleted_vino"].i;
+	if (op.has("reuse_vino")) { vino = (uint64_t)x.vars["last_deleted_vino"].i; x.vars["last_deleted_vino"] = Json((uint64_t)0); if (vino) x.probe("inode_reused"); }
 	x.sb.put_file(rel, gen_bytes((uint64_t)op.num("seed"), (size_t)op.num("size")), s, ns, true, vino);
 }
 
@@ -280,7 +284,8 @@ static void op_delete_h(Exec& x, const Json& op, int)
 	std::string rel = x.pick_file(op.num("d"), op.num("f"));
 	if (rel.empty()) return;
 	struct stat st;
-	if (lstat(x.sb.abs(rel).c_str(), &st) == 0) x.vars["last_deleted_vino"] = Json((uint64_t)sim_vino_peek(st.st_ino));
+	// an inode number can only be reused once its last name is gone
+	if (lstat(x.sb.abs(rel).c_str(), &st) == 0) x.vars["last_deleted_vino"] = Json((uint64_t)(st.st_nlink <= 1 ? sim_vino_peek(st.st_ino) : 0));
 	x.sb.remove_path(rel);
 }
 
@@ -337,6 +342,21 @@ static void op_copy_h(Exec& x, const Json& op, int)
 	x.sb.get_file(rel, b);
 	x.sb.stat_file(rel, sz, s, ns);
 	x.sb.put_file(to, b, s, ns, true);
+}
+
+// same bytes, same stamp, new inode (restore from a backup with cp -p)
+static void op_reinode_h(Exec& x, const Json& op, int)
+{
+	std::string rel = x.pick_file(op.num("d"), op.num("f"));
+	if (rel.empty()) return;
+	struct stat st;
+	if (lstat(x.sb.abs(rel).c_str(), &st) != 0 || st.st_nlink > 1) return;
+	Bytes b;
+	uint64_t sz;
+	int64_t s, ns;
+	x.sb.get_file(rel, b);
+	x.sb.stat_file(rel, sz, s, ns);
+	x.sb.put_file(rel, b, s, ns, true);
 }
 
 static void op_touch_h(Exec& x, const Json& op, int)
@@ -430,6 +450,7 @@ static struct RegisterGeneric {
 		Exec::register_op("rename", op_rename_h);
 		Exec::register_op("copy", op_copy_h);
 		Exec::register_op("touch", op_touch_h);
+		Exec::register_op("reinode", op_reinode_h);
 		Exec::register_op("symlink", op_symlink_h);
 		Exec::register_op("hardlink", op_hardlink_h);
 		Exec::register_op("mkdir", op_mkdir_h);
